@@ -42,7 +42,7 @@ fn kinds() -> Vec<FKind> {
 }
 
 const VARIANTS: &[&str] = &["NotFound", "Bad", "Worse", "V2", "NotOK", "IOError", "A", "Quota", "PermissionDenied", "X9", "Unknown", "Failed"];
-const FIELDS: &[&str] = &["code", "msg", "max_bytes", "user", "hint", "items", "r#type", "flag", "ratio", "inner", "the_key", "x", "r#in", "method", "error", "parameters"];
+const FIELDS: &[&str] = &["code", "msg", "max_bytes", "user", "hint", "items", "r#type", "flag", "ratio", "inner", "the_key", "x", "r#in", "method", "error", "parameters", "_code", "kind_", "__x", "a__b", "r#_in", "x1"];
 const RENAMES: &[&str] = &["maxBytes", "user-name", "Type", "k2", "UPPER", "with.dot", "parameters", "error"];
 
 struct Field {
